@@ -205,7 +205,8 @@ def explore_subst_small(P, u, only, loop_limit=3, max_paths=20000):
         res.meta['argfirst'] = True
         ctx.emit('call', 'preprocess2', args, n.line, res)
         return res
-    it = PInterp(P, u, {'opaque': ['has_varargs', 'skip'],
+    from .lib_c09x import ListLoopInterp
+    it = ListLoopInterp(P, u, {'opaque': ['has_varargs', 'skip'],
                         'cut': {'read_macro_arg_one': cut_unexpected('read_macro_arg_one'), 'subst': cut_unexpected('subst'), 'stringize': creator('stringize'), 'paste': creator('paste'),
                                 'preprocess2': cut_pp2},
                         'models': {'copy_token': m_copy_token, 'equal': make_equal_model(known, False, cell), 'find_arg': m_find_arg},
